@@ -1,5 +1,5 @@
 (* C09 -- a read-only Stack or Condition cannot be changed.  Property theorems only. *)
-From Stackage Require Import Base Generated StackImpl StackSpec StackRefine StackCorollaries Guard GeneratedIR GuardProps.
+From Stackage Require Import Base Generated CfgProps StackImpl StackSpec StackRefine StackCorollaries Guard GeneratedIR GuardProps.
 Open Scope Z_scope.
 
 (* (a) static, over the guard IR regenerated from /repo: for EVERY exported
@@ -36,6 +36,14 @@ Theorem c09_ro_roundtrip :
       k_typ c2 = k_typ c /\ k_cap c2 = k_cap c /\ k_ord c2 = k_ord c /\ k_err c2 = k_err c /\ k_ppf c2 = k_ppf c.
 Proof. exact ro_roundtrip. Qed.
 Print Assumptions c09_ro_roundtrip.
+
+(* the read-only test (like every option test) of an instance that carries a
+   kind reads the option word and nothing else - in particular not the error
+   field, which SetErr may change on a read-only instance *)
+Theorem c09_option_test_reads_option_word_only :
+  forall (typ opt f : N), typ <> 0%N -> g_cfg_positive typ opt f = g_flag_positive opt f.
+Proof. exact cfg_positive_is_bit. Qed.
+Print Assumptions c09_option_test_reads_option_word_only.
 
 Example c09_nonvacuous :
   (* the entry list is not empty, contains mutators, and Free is among the checked ones *)
